@@ -265,7 +265,7 @@ def run(ctx):
         if not ok:
             r2.violate("C19|R2|disagree", "the two value-kind dispatchers accept different first characters: %s vs %s" % (sorted(a), sorted(b)))
     # R3: the assumption behind EMITTED - numbers are written through Display
-    r3 = chk.rule("R3-writer-uses-display", "the JSON writers format values through Display / to_string only (Debug or exponent formatting of numbers produces text such as '-1e-5' whose second '-' / 'e' forms the readers do not accept)", floor=10)
+    r3 = chk.rule("R3-writer-uses-display", "the JSON writers format values through Display / to_string only (Debug or exponent formatting of numbers produces text such as '-1e-5' whose second '-' / 'e' forms the readers do not accept)", floor=3)
     import re as _re
     writers = [n for n, f in F.fns.items() if f.crate == "rws" and f.kind != "Promoted" and _re.search(r"^json::|as json::", n) and _re.search(r"to_json|to_string|::fmt$|float_number_with_precision", n.split("::")[-1] if not n.startswith("<") else n)]
     wseen = G.reachable(writers)
